@@ -87,6 +87,22 @@ def realise(feat: Dict[str, bool], root: Path) -> List[str]:
     return srcs
 
 
+# hand-written shapes outside the skeleton family (rendered like real packages: object model = System projection)
+EXTRA_PROJECTS: Dict[str, Dict[str, str]] = {
+    # a class redefined as a subclass of its own earlier definition: the superseded 'A 0' is a base class
+    "redefined-base": {"m.py": '"""Module m."""\nclass A:\n    """First A."""\n    def old(self):\n        """Old method."""\n'
+                               'class A(A):\n    """Second A, extends the first."""\n    def new(self):\n        """New method, see L{old}."""\n'
+                               'class B(A):\n    """Subclass of the second A."""\n'},
+    # identifiers that need percent-encoding in URLs (PEP 3131)
+    "non-ascii": {"m.py": '"""Module m, see L{Café}."""\nclass Café:\n    """Non-ASCII class name."""\n    def crème(self):\n'
+                          '        """Method, see L{Café}."""\nclass Thé(Café):\n    """Subclass."""\n    def crème(self):\n        pass\n'},
+    # a variable superseded by a class of the same name, a function defined twice
+    "redefined-members": {"pkg/__init__.py": '"""Package."""\n',
+                          "pkg/mod.py": '"""Module."""\nThing = None\n"""Placeholder."""\nclass Thing:\n    """The real Thing."""\n'
+                                        '    def f(self):\n        """First f."""\n    def f(self):\n        """Second f."""\n'},
+}
+EXTRA_SRC = {"redefined-base": ["m.py"], "non-ascii": ["m.py"], "redefined-members": ["pkg"]}
+
 ALL_PRODS = ["namespace", "childTable", "baseTable", "baseName", "classSignature", "subclasses", "overrides",
              "overriddenIn", "headerLink", "inhierarchy", "docstring", "memberDoc", "summaryDoc", "annotation",
              "sidebarTitle", "sidebarItem", "nav", "moduleIndex", "classIndex", "nameIndex", "letterlinks",
@@ -117,13 +133,20 @@ def run_job(job: Dict[str, Any]) -> Dict[str, Any]:
             srcs = realise(job["feat"], Path(job["root"]))
             privacy = ["%s:%s" % (r["p"], r["id"]) for r in job["nd"]]
             cwd: Optional[str] = job["root"]
+        elif job.get("project"):
+            shutil.rmtree(job["root"], ignore_errors=True)
+            for rel, text in EXTRA_PROJECTS[job["project"]].items():
+                f = Path(job["root"]) / rel
+                f.parent.mkdir(parents=True, exist_ok=True)
+                f.write_text(text, encoding="utf-8")
+            srcs, privacy, cwd = [str(Path(job["root"]) / x) for x in EXTRA_SRC[job["project"]]], job["privacy"], job["root"]
         else:
             srcs, privacy, cwd = job["src"], job["privacy"], None
         extra = ["--sidebar-expand-depth=%d" % job["depth"], "--sidebar-toc-depth=%d" % job["tocdepth"]] + list(job.get("extra", ()))
         res = sc.run_site({"name": job["name"], "src": srcs, "cwd": cwd, "out": job["out"], "privacy": privacy,
                            "theme": job["theme"], "extra": extra})
         res["job"] = job
-        if job["kind"] == "enum":
+        if job.get("root"):
             shutil.rmtree(job["root"], ignore_errors=True)
         return res
     except Exception as e:                                   # reported as machinery failure by the parent
@@ -143,7 +166,7 @@ def to_case(res: Dict[str, Any]) -> Dict[str, Any]:
     job, site, proj = res["job"], res["site"], res["objs"]
     objs = {}
     for o in proj["objs"]:
-        objs[o["id"]] = {k: o[k] for k in ("id", "name", "cls", "parent", "priv", "ownpage", "file", "frag",
+        objs[o["id"]] = {k: o[k] for k in ("id", "qid", "name", "cls", "parent", "priv", "ownpage", "file", "frag",
                                            "incontents", "bases", "mro", "subclasses", "doc", "docsrc", "initial",
                                            "dupname", "dupfull")}
     pages = [f for f, raw in zip(site["files"], site["rawfiles"]) if raw.endswith(".html")]
@@ -164,7 +187,7 @@ def to_case(res: Dict[str, Any]) -> Dict[str, Any]:
                  "entries": [{"page": a, "kind": b, "file": c, "frag": d, "private": e} for a, b, c, d, e in entries],
                  "inv": sorted({r["id"] for r in site["inv"]}),
                  "docs": [{"id": d["id"], "file": d["file"], "frag": d["frag"], "privacy": d["privacy"]} for d in site["alldocs"]],
-                 "search": site["searchindex"], "fsearch": site["fullsearchindex"]},
+                 "search": site["searchindex"], "fsearch": site["fullsearchindex"], "encfiles": site["encfiles"]},
     }
 
 
@@ -179,6 +202,7 @@ class View:
 
     def __init__(self, case: Dict[str, Any]):
         self.o = case["objs"]
+        self.encfiles = set(case["site"].get("encfiles", ()))
         self.multi = len(set(case["roots"])) > 1
         self._hidden: Dict[str, bool] = {}
         self._intree: Dict[str, bool] = {}
@@ -214,7 +238,14 @@ class View:
     def targets_hidden(self, f: str, g: str) -> bool:
         return f in self.hid_pages or (f, g) in self.hid_frags
 
+    def kf_obj(self, i: str) -> str:
+        if self.o[i]["file"] in self.encfiles:
+            return "percent-encoded-page-filename"
+        return "superseded-duplicate-not-rendered" if i in self.superseded else "none"
+
     def kf_link(self, page: str, f: str, g: str, prod: str, member: str = "") -> str:
+        if f in self.encfiles:
+            return "percent-encoded-page-filename"
         if prod in ALLOBJECTS_PRODS and (f, g) in self.superseded_urls:
             return "superseded-duplicate-listed"
         if prod == "memberDoc" and f == page and g != "" and member in self.o and self.o[member]["docsrc"] != member:
@@ -223,6 +254,10 @@ class View:
             return "link-to-hidden-object"
         if prod in ("moduleIndex", "indexRoots") and g == "" and f in self.hidden_root_files:
             return "hidden-root-listed"
+        if prod not in ALLOBJECTS_PRODS and (f, g) in self.superseded_urls:
+            return "superseded-duplicate-not-rendered"
+        if prod == "inhierarchy" and f == "classIndex" and g in self.o and any(b in self.superseded for b in self.o[g]["bases"]):
+            return "superseded-duplicate-not-rendered"
         return "none"
 
 
@@ -248,13 +283,13 @@ def verdict(case: Dict[str, Any]) -> Dict[str, Set[Tuple[Any, ...]]]:
     for i, o in v.o.items():
         if i in v.hidden:
             continue
-        kf = "superseded-duplicate-listed" if i in v.superseded else "none"
+        kf = v.kf_obj(i)
         if o["ownpage"] and o["file"] not in files:
             out["VisibleHasPage"].add((i, kf))
         if not o["ownpage"] and not (o["frag"] != "" and resolves(o["file"], o["frag"])):
             out["VisibleMemberHasAnchor"].add((i, kf))
     h = out["HiddenNoTrace"]
-    for f in v.hid_pages & files:
+    for f in v.hid_pages & (files | v.encfiles):
         h.add(("file", "", f, "", "", "none"))
     for f, g in v.hid_frags:
         if f in anchors and g in anchors[f]:
@@ -297,7 +332,10 @@ def _facts_class(w: Dict[str, Any]) -> str:
     inst = w.get("instance", {})
     prod = inst.get("prod", "")
     if w.get("invariant") in ("VisibleHasPage", "VisibleMemberHasAnchor"):
-        return "superseded-duplicate-listed" if f.get("obj_superseded") else "none"
+        return "percent-encoded-page-filename" if f.get("page_written_under_encoded_name") else \
+            "superseded-duplicate-not-rendered" if f.get("obj_superseded") else "none"
+    if f.get("page_written_under_encoded_name"):
+        return "percent-encoded-page-filename"
     if prod in ALLOBJECTS_PRODS and f.get("target_superseded"):
         return "superseded-duplicate-listed"
     if prod == "memberDoc" and inst.get("file") == inst.get("page") and inst.get("frag") and f.get("member_doc_inherited"):
@@ -306,11 +344,23 @@ def _facts_class(w: Dict[str, Any]) -> str:
         return "link-to-hidden-object"
     if prod in ("moduleIndex", "indexRoots") and f.get("target_hidden_root") and not inst.get("frag"):
         return "hidden-root-listed"
+    if prod not in ALLOBJECTS_PRODS and f.get("target_superseded"):
+        return "superseded-duplicate-not-rendered"
+    if prod == "inhierarchy" and inst.get("file") == "classIndex" and f.get("class_has_superseded_base"):
+        return "superseded-duplicate-not-rendered"
     return "none"
 
 
 def kf_superseded_duplicate_listed(w: Dict[str, Any]) -> bool:
-    return w.get("invariant") in C11_INVARIANTS and _facts_class(w) == "superseded-duplicate-listed"
+    return w.get("invariant") == "LinksResolve" and _facts_class(w) == "superseded-duplicate-listed"
+
+
+def kf_superseded_duplicate_not_rendered(w: Dict[str, Any]) -> bool:
+    return w.get("invariant") in C11_INVARIANTS and _facts_class(w) == "superseded-duplicate-not-rendered"
+
+
+def kf_percent_encoded_page_filename(w: Dict[str, Any]) -> bool:
+    return w.get("invariant") in C11_INVARIANTS and _facts_class(w) == "percent-encoded-page-filename"
 
 
 def kf_inherited_docstring_link(w: Dict[str, Any]) -> bool:
@@ -346,6 +396,7 @@ def witness(case: Dict[str, Any], job: Dict[str, Any], inv: str, inst: Tuple[Any
     elif inv in ("VisibleHasPage", "VisibleMemberHasAnchor"):
         instance = {"obj": inst[0]}
         facts["obj_superseded"] = inst[0] in v.superseded
+        facts["page_written_under_encoded_name"] = v.o[inst[0]]["file"] in v.encfiles
         page = f = g = prod = member = ""
     elif inv == "HiddenNoTrace":
         trace, page, f, g, prod, _kf = inst
@@ -357,6 +408,8 @@ def witness(case: Dict[str, Any], job: Dict[str, Any], inv: str, inst: Tuple[Any
         instance = {"page": page, "kind": kind, "file": f, "frag": g}
     if inv in ("LinksResolve", "HiddenNoTrace"):
         facts.update({"target_superseded": (f, g) in v.superseded_urls, "target_hidden": v.targets_hidden(f, g),
+                      "page_written_under_encoded_name": f in v.encfiles,
+                      "class_has_superseded_base": g in v.o and any(b in v.superseded for b in v.o[g]["bases"]),
                       "target_hidden_root": f in v.hidden_root_files,
                       "member_doc_inherited": bool(member) and member in v.o and v.o[member]["docsrc"] != member,
                       "target_objects": sorted(i for i, o in v.o.items() if (o["file"], o["frag"]) == (f, g))[:4]})
@@ -469,6 +522,8 @@ def run_property(ctx: Ctx, prop: str) -> int:
     workers = max(2, min(14, (os.cpu_count() or 4) - 2))
     if prop == "C11":
         ctx.register_matcher("superseded-duplicate-listed", kf_superseded_duplicate_listed)
+        ctx.register_matcher("superseded-duplicate-not-rendered", kf_superseded_duplicate_not_rendered)
+        ctx.register_matcher("percent-encoded-page-filename", kf_percent_encoded_page_filename)
         ctx.register_matcher("inherited-docstring-samepage-link", kf_inherited_docstring_link)
         ctx.register_matcher("dead-link-to-hidden-object", kf_dead_link_to_hidden)
         ctx.register_matcher("dead-link-hidden-root", kf_dead_link_hidden_root)
@@ -529,10 +584,16 @@ def run_property(ctx: Ctx, prop: str) -> int:
         srcs = package_sources(tp / nm)
         if srcs:
             pass1.append(real_job("%s#0" % nm, srcs, [], THEMES[n % 3], 1 + n % 3, 6, ctx.scratch, len(pass1)))
-    res = run_jobs(jobs + pass1, workers)
+    extras = []
+    for n, nm in enumerate(sorted(EXTRA_PROJECTS)):
+        for vv, rules in enumerate([[], ["PRIVATE:**.f*", "HIDDEN:m.B"], ["HIDDEN:**.A", "PRIVATE:m.Th*"]][:2 if ctx.quick else 3]):
+            j = real_job("x:%s#%d" % (nm, vv), [], rules, THEMES[(n + vv) % 3], 1 + vv, 6, ctx.scratch, 9000 + 10 * n + vv)
+            j.update({"project": nm, "root": str(ctx.scratch / ("xproj%d_%d" % (n, vv)))})
+            extras.append(j)
+    res = run_jobs(jobs + extras + pass1, workers)
     pass2 = []
     nvar = 3 if ctx.quick else 6
-    for rj in res[len(jobs):]:
+    for rj in res[len(jobs) + len(extras):]:
         if "error" in rj or "objs" not in rj:
             continue
         ids = [o["id"] for o in rj["objs"]["objs"]]
